@@ -66,7 +66,7 @@ func (o *simpleAccessController) GetAuthorizedByRole(role string) ([]string, err
 	return o.allowedKeys[role], nil
 }
 
-func (o *simpleAccessController) CanAppend(e logac.LogEntry, _ identityprovider.Interface, _ accesscontroller.CanAppendAdditionalContext) error {
+func (o *simpleAccessController) CanAppend(e logac.LogEntry, p identityprovider.Interface, _ accesscontroller.CanAppendAdditionalContext) error {
 	identity := e.GetIdentity()
 	if identity == nil {
 		return fmt.Errorf("entry has no identity")
@@ -74,7 +74,7 @@ func (o *simpleAccessController) CanAppend(e logac.LogEntry, _ identityprovider.
 
 	for _, id := range o.allowedKeys["write"] {
 		if identity.ID == id || id == "*" {
-			return nil
+			return accesscontroller.VerifyEntryIdentity(e, p)
 		}
 	}
 
